@@ -17,6 +17,11 @@ def sl(xs, a, b):
     return tuple(xs[a:b])
 def pre(xs, b):
     return tuple(xs[:b])
+def enum(xs, a):
+    out = []
+    for i, v in enumerate(xs, a):
+        out.append(i * 100 + v)
+    return tuple(out)
 ''')
 from pyvc.runner import source
 from pyvc.core import Ctx
@@ -39,7 +44,8 @@ def concrete(out, m):
 for fn, args, ranges, ref in (
         ('rot', [a], lambda: [(aa, 0) for aa in range(-6, 7)], lambda l, aa, bb: (lambda d: (d.rotate(aa), list(d))[1])(collections.deque(l))),
         ('sl', [a, b], lambda: [(aa, bb) for aa in range(-6, 7) for bb in range(-6, 7)], lambda l, aa, bb: l[aa:bb]),
-        ('pre', [b], lambda: [(0, bb) for bb in range(-6, 7)], lambda l, aa, bb: l[:bb])):
+        ('pre', [b], lambda: [(0, bb) for bb in range(-6, 7)], lambda l, aa, bb: l[:bb]),
+        ('enum', [a], lambda: [(aa, 0) for aa in range(-3, 4)], lambda l, aa, bb: [i * 100 + v for i, v in enumerate(l, aa)])):
     I = Interp(src)
     ctx = Ctx()
     ctx.assume(z3.And(n >= 0, n <= cap))
